@@ -43,7 +43,7 @@ FLOORS = {"quick": {"compared": 6000, "compared_ok": 1500,
                        "compared_reject": 80000,
                        "badvalue_class_checked": 8000,
                        "bad_specifiers": 20000}}
-N_MODELS = {"quick": 500, "thorough": 12000}
+N_MODELS = {"quick": 1500, "thorough": 12000}
 TEXTS = {"quick": 8, "thorough": 20}
 BAD_SPECS = ["novalue", "a//b=v", "/a=v", "a/=v", "=v", "a/b", "//=x", ""]
 
